@@ -96,9 +96,13 @@ def states(tier):
     return S
 
 
+def base_state():
+    return dict(ids=(0, 0, 0, 0, 0, 0), setsid=0, cwd='root', stdin='null', env='three', sudo=0, logname=0, host='-', chain='', ptyowner=0, orphan=0, tz='VRF-3:30', newpgrp=0, pwd='none', forked=0)
+
+
 def spec_of(st, ds, work):
     parts = ['ids=%s' % ','.join(map(str, st['ids'])), 'setsid=%d' % st['setsid'], 'cwd=' + st['cwd'], 'stdin=' + st['stdin'], 'env=' + st['env'], 'sudo=%d' % st['sudo'], 'logname=%d' % st['logname'],
-             'host=' + st['host'], 'ptyowner=%d' % st['ptyowner'], 'orphan=%d' % st.get('orphan', 0), 'tz=' + st.get('tz', 'UTC'), 'newpgrp=%d' % st.get('newpgrp', 0), 'pwd=' + st.get('pwd', 'none'), 'exec2=%d' % st.get('exec2', 0), 'forked=%d' % st.get('forked', 0), 'work=' + work, 'ds=' + ','.join(hx(d) for d in ds)]
+             'host=' + st['host'], 'ptyowner=%d' % st['ptyowner'], 'orphan=%d' % st.get('orphan', 0), 'tz=' + st.get('tz', 'UTC'), 'newpgrp=%d' % st.get('newpgrp', 0), 'pwd=' + st.get('pwd', 'none'), 'exec2=%d' % st.get('exec2', 0), 'forked=%d' % st.get('forked', 0), 'work=' + work, 'ds=' + ','.join(hx(d) for d in ds)] + (['cgfile=' + hx(st['cgfile'])] if st.get('cgfile') else [])
     if st['chain']:
         parts.append('chain=' + '/'.join(hx(n) for n in st['chain'].split('/')))
     return ';'.join(parts)
@@ -256,6 +260,43 @@ def run(ck):
             ck.violation('C12:%s:%s' % (n, tag), {'datasource': n, 'problem': why, 'state': st})
         if len(samples) < 4 and evals % 101 == 3:
             samples.append({'state': tag, 'mismatches': [b[0] for b in bad]})
+    # ---- control-group texts: every file of <= 3 lines over a line alphabet (x final newline or not), every selector
+    CGL = ['9:name=systemd:/', '4:memory:/a/b', '3:cpu,cpuacct:/x', '2:cpuset:/y:with:colons', '1:net_cls,net_prio,cpu:/p,with,commas', '0::/unified', '12:pids:/' + 'd' * 3000,
+           'garbage line', '5:mem:/short', '6:memoryx:/z', '7:cpu:', '8', '10:memory', '11:a,,b:/emptytoken']
+    CGSEL = ['0', '1', '4', '12', '8', '99', 'memory', 'cpu', 'cpuacct', 'net_prio', 'net_cls', 'name=systemd', 'mem', 'cpuset', 'nosuch', 'a', 'b', 'cpu,cpuacct', 'pids']
+    cgfiles = []
+    for n in (1, 2, 3):
+        for combo in itertools.product(CGL if (n < 3 or ck.tier == 'thorough') else CGL[:8], repeat=n):
+            body = '\n'.join(combo)
+            cgfiles += [body + '\n', body]
+    cgfiles += ['\n', '\n'.join(CGL * 2) + '\n', '0::/' + 'p' * 10100 + '\n4:memory:/after-a-line-longer-than-10k\n', '\n'.join('%d:c%d:/%s' % (i, i, 'q' * 700) for i in range(13)) + '\n4:memory:/at-the-end\n']
+    # (texts of 10 KiB and more are refused by the library's small-file helper by design: the data source then yields its error text;
+    #  such a text needs cgroup nesting this sandbox cannot create for real, so it is outside the constructed states - see DESIGN.md section 8)
+    cgfiles = [c for c in dict.fromkeys(cgfiles)]
+    cgds = ['cgroup:' + x for x in CGSEL]
+    cgstates = [dict(base_state(), cgfile=c) for c in cgfiles]
+    for st, (out, r, reports) in zip(cgstates, pmap(lambda st: one(st, cgds), cgstates)):
+        evals += 1
+        label = st['cgfile'][:60].replace('\n', '|') + ('...(%d bytes)' % len(st['cgfile']) if len(st['cgfile']) > 60 else '')
+        if out is None or reports:
+            ck.violation('C12:abort:cgroup_text:%s' % label, {'cgroup_text': st['cgfile'][:400], 'rc': r.returncode, 'stderr': r.stderr.decode('latin-1')[-300:], 'sanitizer': reports[:1]})
+            continue
+        seen_text = unh(out['f'], 'cgroup').decode('latin-1')
+        if seen_text != st['cgfile'][:len(seen_text)] or (len(seen_text) < len(st['cgfile']) and len(seen_text) < 8000):
+            raise RuntimeError('the fake cgroup text was not in place: wanted %r, process saw %r' % (st['cgfile'][:80], seen_text[:80]))
+        lines = st['cgfile'].split('\n')
+        if lines and lines[-1] == '':
+            lines.pop()
+        for sel in CGSEL:
+            got = bytes.fromhex(out['ds'][hx('cgroup:' + sel)]['v']).decode('latin-1')
+            if sel.isdigit():
+                want = [l for l in lines if l.startswith(sel + ':')]
+            else:
+                want = [l for l in lines if l.count(':') >= 2 and l.split(':')[1] and (sel == l.split(':')[1] or sel in l.split(':')[1].split(','))]
+            w = want[0] if want else '(none)'
+            outcomes.add(('cgtext', sel, bool(want), got == w))
+            if got != w:
+                ck.violation('C12:cgroup:%s:text=%s' % (sel, label), {'selector': sel, 'cgroup_text': st['cgfile'][:600], 'got': got[:200], 'want': w[:200]})
     # ---- strftime formats (one state)
     conv = 'aAbBcCdDeFgGhHIjklmMnpPrRsStTuUVwWxXyYzZ%'
     fm = ['%' + c for c in conv]
